@@ -842,7 +842,7 @@ Proof.
   - apply transition_nocrash.
   - intro H; inversion H. discriminate.
   - destruct (transition hooks (oracle_of i o) GO_ERROR (o_body o) s) as [[s1 t1] r1] eqn:E.
-    apply transition_nocrash in E.
+    apply transition_nocrash in E. destruct (force_error s1) as [s2 tf].
     destruct r1; intro H; inversion H; subst; try discriminate. exact E.
   - unfold leave_all. destruct (run_pass hooks (oracle_of i o) (MLeave (e_st s)) wall s) as [[s1 t1] p] eqn:E.
     pose proof (run_pass_nocrash _ _ _ _ _ _ _ _ E) as C.
